@@ -117,11 +117,11 @@ Proof. exact ie_append_ok. Qed.
 (** capacity and lookups: with consistent tables and a sufficient sizing expression the report is produced --
     no KeyError, and no row beyond the rows appended to its sheet (IndexError), for any number of assets
     sharing the sheets.  Hypotheses: ComputedData exists for every asset; the legend's method string is
-    defined (a one-entry schedule is keyed 1970: finding F10 belongs to C13/C16); the figures of the window's
+    defined (always, once a one-entry schedule is taken by value -- the repair of finding F10, which belongs to C13/C16); the figures of the window's
     fractions are defined ([mk_items]); every fraction's type has a sheet *)
 Theorem C14_report_produced : forall T i acs, tables_ok T = true -> append_ok T ->
   computed_all i (rp_assets i) = Ok acs ->
-  (exists m, legend_method (rp_sched i) = Ok m) ->
+  (exists m, legend_method (tt_legend_single_by_value T) (rp_sched i) = Ok m) ->
   (forall ac, In ac acs -> exists items, mk_items T (asset_sources i ac) = Ok items) ->
   (forall ac g, In ac acs -> In g (cd_gls (snd ac)) -> type_to_sheet T (t_type (g_ev g)) <> None) ->
   exists out, tax_report T i = Ok out.
@@ -137,14 +137,14 @@ Proof. intros T i out H A. exact (data_sheets_within_capacity T (tables_ok_good 
     the IE instance needs the IE map to be total (finding F4) *)
 Theorem C14_us_report_produced : forall i acs,
   computed_all i (rp_assets i) = Ok acs ->
-  (exists m, legend_method (rp_sched i) = Ok m) ->
+  (exists m, legend_method (tt_legend_single_by_value tax_tables_us) (rp_sched i) = Ok m) ->
   (forall ac, In ac acs -> exists items, mk_items tax_tables_us (asset_sources i ac) = Ok items) ->
   (forall ac g, In ac acs -> In g (cd_gls (snd ac)) -> In (t_type (g_ev g)) taxable_types) ->
   exists out, tax_report tax_tables_us i = Ok out.
 Proof. exact us_report_produced. Qed.
 Theorem C14_ie_report_produced : forall i acs,
   computed_all i (rp_assets i) = Ok acs ->
-  (exists m, legend_method (rp_sched i) = Ok m) ->
+  (exists m, legend_method (tt_legend_single_by_value tax_tables_ie) (rp_sched i) = Ok m) ->
   (forall ac, In ac acs -> exists items, mk_items tax_tables_ie (asset_sources i ac) = Ok items) ->
   (forall ac g, In ac acs -> In g (cd_gls (snd ac)) -> In (t_type (g_ev g)) taxable_types) ->
   exists out, tax_report tax_tables_ie i = Ok out.
